@@ -48,6 +48,9 @@ def lattice(tier):
   bits_r = range(2, 9)
   mvs = [None] + [F(2) ** k for k in (range(-3, 7) if tier == "thorough"
                                       else (-3, -1, 0, 1, 3, 6))]
+  # a max_value that is not a power of two only limits the exponent range
+  # (no documented cap is checked for it); the outputs stay powers of two
+  mvs += [F(3), F(6), F(3, 4)] if tier == "thorough" else [F(3)]
   for bits, mv, rnd in itertools.product(bits_r, mvs, ("rnd", "floor")):
     yield "quantized_po2", dict(bits=bits, max_value=mv, log2_rounding=rnd)
   slopes = (F(0), F(1, 2), F(1, 8)) if tier == "thorough" else (F(0),
